@@ -60,11 +60,33 @@ fn check_bfs<D: Order + OutNeighbors + Clone>(d: &D, m: &Model, src: &[usize], o
     o.eq("BfsDist::distances", &BfsDist::new(d, src.iter().copied()).distances(), &want);
 }
 
+/// A path of more than 2^16 vertices (plus a few arcs that don't shorten
+/// it): hop distances and depths beyond 65535.
+pub fn huge_path(r: &mut Rng) -> (Model, Vec<usize>, &'static str) {
+    let n = *r.pick(&[65_537usize, 65_540, 66_000, 70_001]);
+    let mut m = Model::new(n);
+    for u in 0..n - 1 {
+        m.arcs.insert((u, u + 1), 1);
+    }
+    for _ in 0..r.below(4) {
+        let u = r.range(1, n - 1);
+        let v = r.below(u);
+        m.arcs.insert((u, v), 1); // backward arcs only
+    }
+    (m, vec![0], "huge_path")
+}
+
+pub fn is_huge_case(idx: u64, p: &Params) -> bool {
+    let every = p.u64("huge_every", 150_000);
+    every > 0 && idx % every == 77
+}
+
 pub fn case(idx: u64, seed: u64, p: &Params, o: &mut CaseOut) {
     let mut r = Rng::for_case(4, seed, idx);
-    let (m, src, fam) = gen_case(&mut r, p.usize("max_order", 20));
+    let huge = is_huge_case(idx, p);
+    let (m, src, fam) = if huge { huge_path(&mut r) } else { gen_case(&mut r, p.usize("max_order", 20)) };
     let only = p.usize("type", usize::MAX);
-    let ty = if only < 5 { only } else { r.below(6) };
+    let ty = if huge { r.below(2) } else if only < 5 { only } else { r.below(6) };
     // ty == 5: all five types on the same abstract digraph
     for t in 0..5 {
         if ty != 5 && ty != t {
